@@ -133,6 +133,9 @@ type RecDialer struct {
 	Dials    []string
 	Conns    []*MemConn
 	Response func(addr string) ([]byte, error) // nil: empty response
+	// applied to the conns handed out (see MemConn)
+	ReadMax     int
+	EOFWithData bool
 }
 
 func (d *RecDialer) DialStream(ctx context.Context, addr string) (transport.StreamConn, error) {
@@ -147,6 +150,7 @@ func (d *RecDialer) DialStream(ctx context.Context, addr string) (transport.Stre
 		}
 	}
 	c := NewMemConn(resp, &net.TCPAddr{IP: net.IPv4(192, 0, 2, 99), Port: 80})
+	c.ReadMax, c.EOFWithData = d.ReadMax, d.EOFWithData
 	d.Conns = append(d.Conns, c)
 	return c, nil
 }
